@@ -234,25 +234,50 @@ func c16Unrank(R, K, M int) {
 func H_c16_unrank_q() { c16Unrank(60, 4, 0) }
 func H_c16_unrank_t() { c16Unrank(300, 5, 0) }
 
-// c16UnrankStep: loop-step lemma for the inner loop of Unrank at level i (0-based):
-// from any state (l, b, m) with b == C(l, i+1) and b <= m, b*(l+1) must not wrap.
-// The real loop body is re-stated here from comb.go lines 109-113 only to name
-// the state; the check that decides is c16UnrankBig below, which runs the real code.
-func c16UnrankBig(k int) {
-	// ranks whose top element is large: Unrank(Rank({0..k-2, c}), k) for symbolic large c.
-	c := rt.Int("c")
-	rt.Assume(c >= int(k) && c <= 1<<62)
-	comb := make([]int, k)
-	for i := 0; i < k-1; i++ {
-		comb[i] = i
+// c16UnrankWin: ranks in a symbolic window [2^e - w, 2^e + w] around a large power of
+// two: the real loop runs (about (k!*r)^(1/k) iterations on concrete values) and
+// only the comparisons with the rank are symbolic.  Obligations: Unrank returns
+// (instruction budget = termination), the result is strictly increasing and
+// non-negative, nothing inside Unrank wraps, and Rank inverts it unless it refuses.
+func c16UnrankWin(k int, e uint, w int) {
+	base := 1 << e
+	r := rt.IntIn("r", base-w, base-1+w)
+	rt.WatchOverflow("github.com/Tom-Johnston/mamba/comb.Unrank")
+	u := Unrank(r, k)
+	rt.Check(len(u) == k, "Unrank: wrong length")
+	for i := range u {
+		rt.Check(u[i] >= 0, "Unrank: negative element")
+		if i > 0 {
+			rt.Check(u[i-1] < u[i], "Unrank: not strictly increasing")
+		}
 	}
-	comb[k-1] = c
-	var r int
-	p, _ := rt.Panics(func() { r = Rank(comb) })
-	if p {
-		rt.Reach("end")
-		return
+	var back int
+	p, _ := rt.Panics(func() { back = Rank(u) })
+	if !p {
+		rt.Check(back == r, "Rank(Unrank(r,k)) != r")
 	}
-	_ = r
+	if !rt.Symbolic() {
+		// native replay: exact check with math/big even where Rank refuses
+		sum := new(big.Int)
+		for i, c := range u {
+			sum.Add(sum, new(big.Int).Binomial(int64(c), int64(i+1)))
+		}
+		rt.Check(sum.IsInt64() && sum.Int64() == int64(r), "sum of C(c_i, i+1) differs from the rank")
+	}
 	rt.Reach("end")
+}
+
+func H_c16_unrankwin_q() {
+	// (k, e): about (k! * 2^e)^(1/k) <= 4e5 loop iterations each
+	c := rt.Choice("case", 3)
+	k := []int{3, 4, 5}[c]
+	e := []uint{52, 62, 62}[c]
+	c16UnrankWin(k, e, 4)
+}
+
+func H_c16_unrankwin_t() {
+	c := rt.Choice("case", 8)
+	k := []int{2, 2, 3, 3, 4, 5, 6, 7}[c]
+	e := []uint{30, 38, 40, 52, 62, 62, 62, 62}[c]
+	c16UnrankWin(k, e, 64)
 }
